@@ -113,7 +113,18 @@ impl Gen
         self.next_name += 1;
         let letter = *self.rng.pick(LETTERS);
         let base = format!("{}{}{}", letter, kind, self.next_name);
-        if self.with_dir && kind == "t" && self.rng.chance(1, 3) { format!("out/{}", base) } else { base }
+        if self.with_dir && kind == "t"
+        {
+            match self.rng.below(6)
+            {
+                0 | 1 | 3 => format!("out/{}", base),
+                // a sibling of the directory whose name sorts between "out" and "out/" as a plain
+                // string but after it as a path component
+                2 => format!("out.{}", base),
+                _ => base,
+            }
+        }
+        else { base }
     }
 
     fn content_for(&mut self, path : &str) -> Vec<u8>
@@ -548,6 +559,10 @@ impl Gen
             }
             self.files.insert(p.clone(), c.clone());
             ops.push(Op::Write{ path : p, content : c });
+        }
+        else if roll < 38 && self.cfg.rule_edits && self.with_dir
+        {
+            ops.push(Op::Restyle{ bundled : self.rng.chance(1, 2) });
         }
         else if roll < 40 && self.cfg.rule_edits
         {
